@@ -581,6 +581,123 @@ func c10R4(r *Report) {
 		}
 		return false
 	}}
+	// a read that found nothing (the piece was evicted, or the torrent deleted, since it was requested) must not leave
+	// the same-piece shortcut armed: the next Read would skip the request — and with it the wait and the dead-torrent
+	// test — and return (0, nil) for ever (io.ReadFull in the FUSE front-end then spins instead of failing)
+	{
+		riF := p.Field("tor", "Reader", "requestedIndex")
+		var readAts []*ssa.Call
+		for _, ci := range callsIn(read) {
+			if c, ok := ci.(*ssa.Call); ok {
+				if cal := c.Call.StaticCallee(); cal != nil && cal.Name() == "ReadAt" && relPkg(cal) == "tor/piece" {
+					readAts = append(readAts, c)
+				}
+			}
+		}
+		isCount := func(v ssa.Value) bool {
+			var rec func(v ssa.Value, d int) bool
+			rec = func(v ssa.Value, d int) bool {
+				v = stripIntConv(v)
+				if cv, ok := v.(*ssa.Convert); ok {
+					v = cv.X
+				}
+				switch x := v.(type) {
+				case *ssa.Extract:
+					if c, ok := x.Tuple.(*ssa.Call); ok && x.Index == 0 {
+						for _, ra := range readAts {
+							if c == ra {
+								return true
+							}
+						}
+					}
+				case *ssa.Phi:
+					if d > 3 {
+						return false
+					}
+					for _, e := range x.Edges {
+						if !rec(e, d+1) {
+							return false
+						}
+					}
+					return len(x.Edges) > 0
+				}
+				return false
+			}
+			return rec(v, 0)
+		}
+		isReadErr := func(v ssa.Value) bool {
+			var rec func(v ssa.Value, d int) bool
+			rec = func(v ssa.Value, d int) bool {
+				switch x := v.(type) {
+				case *ssa.Extract:
+					if c, ok := x.Tuple.(*ssa.Call); ok && x.Index == 1 {
+						for _, ra := range readAts {
+							if c == ra {
+								return true
+							}
+						}
+					}
+				case *ssa.Phi:
+					if d > 3 {
+						return false
+					}
+					for _, e := range x.Edges {
+						// the EOF latch replaces a nil error by io.EOF: still "something to report"
+						if !rec(e, d+1) && !isErrorType(e.Type()) {
+							return false
+						}
+					}
+					return len(x.Edges) > 0
+				}
+				return false
+			}
+			return rec(v, 0)
+		}
+		rearmed := edgeReq{Name: "something was read, an error is reported, or the shortcut is disarmed",
+			Match: func(cond ssa.Value, pol bool) bool {
+				op, x, y, ok := cmpFact(Guard{Cond: cond, Pol: pol})
+				if ok {
+					if k, okk := constInt(y); okk && k == 0 {
+						if isCount(x) && (op == token.NEQ || op == token.GTR) {
+							return true // n > 0
+						}
+						// len(a) == 0: an empty read
+						if c, isC := stripIntConv(x).(*ssa.Call); isC {
+							if bi, isb := c.Call.Value.(*ssa.Builtin); isb && bi.Name() == "len" && len(c.Call.Args) == 1 && c.Call.Args[0] == ssa.Value(read.Params[1]) && (op == token.EQL || op == token.LEQ) {
+								return true
+							}
+						}
+					}
+				}
+				if xv, isNil, okn := nilFact(Guard{Cond: cond, Pol: pol}); okn && !isNil && isReadErr(xv) {
+					return true // err != nil: reported, and the error exit withdraws (checked above)
+				}
+				return false
+			},
+			Instr: func(in ssa.Instruction) bool {
+				if isWithdrawCall(in) {
+					return true
+				}
+				if st, ok := isStoreToField(in, riF); ok {
+					k, okk := constInt(st.Val)
+					return okk && k < 0
+				}
+				return false
+			}}
+		nRA := 0
+		okAll := true
+		for _, ra := range readAts {
+			nRA++
+			miss, reached := pathsMissing(ra, -1, isRet, nil, []edgeReq{rearmed})
+			if reached > 0 && len(miss) > 0 {
+				okAll = false
+			}
+		}
+		if riF != nil && nRA > 0 {
+			r.Check(okAll, "R4", "Reader.Read/empty-read-disarms-shortcut", read.Pos(), "a read that delivered nothing disarms the same-piece shortcut (or reports an error) before returning",
+				"Reader.Read can return (0, nil) — the piece was evicted or the torrent deleted since it was requested — with requestedIndex still naming the piece: every later Read takes the shortcut, skips the request, the wait and the dead-torrent test, and returns (0, nil) again; io.ReadFull on a reused reader (FUSE) spins for ever instead of failing promptly")
+		}
+	}
 	missing2, reached2 := pathsMissing(read.Blocks[0].Instrs[0], -1, isRet, isWithdrawCall, []edgeReq{excusedEdge})
 	_ = reached2
 	r.Check(len(missing2) == 0, "R4", "Reader.Read/error-exits-withdraw", read.Pos(), "every exit of Read that gives up (EOF, cancellation, dead torrent, read error) withdraws the reader's priorities", "a path through Reader.Read returns after giving up without request(-1, -1): the pieces stay requested although nobody waits for them")
